@@ -175,7 +175,7 @@ func (it *Interp) newObject(t types.Type, nslots int, site string) *Object {
 	it.nextObj++
 	it.allocSlots += nslots
 	if it.allocSlots > it.maxAllocSlots {
-		it.endPath("memory budget of the engine exceeded (" + site + ")", true)
+		it.endPath("memory budget of the engine exceeded ("+site+")", true)
 	}
 	o := &Object{ID: it.nextObj, Slots: make([]Val, nslots), T: t, Base: it.initPhase, Site: site}
 	return o
